@@ -420,15 +420,146 @@ def run_c06(ctx):
     return merged
 
 
+def pick_sanitizer_bins(emit, count):
+    """One shard per family, in this order of relevance for cursor arithmetic."""
+    order = ["core", "stack", "repo", "unicode", "arity", "getter", "rec", "random"]
+    picked = []
+    for fam in order:
+        for s in emit["shards"]:
+            if s["family"] == fam and s["grammars"]:
+                picked.append(s["bin"])
+                break
+        if len(picked) >= count:
+            break
+    return picked
+
+
+def sanitizer_run(ctx, label, bins, bin_dir, scale, env=None, wrapper=None, jobs=None, timeout=3600):
+    """Run C09's workload on uninstrumented-hook builds under a sanitizer / valgrind."""
+    fams = [f for f in ALL_FAMILIES]
+    docs, crashes = run_shards(ctx, bins, bin_dir, "C09", fams, ["--scale", str(scale)], env=env, wrapper=wrapper, jobs=jobs, timeout=timeout)
+    merged = merge_results(docs) if docs else {"evaluations": 0, "distinct_nontrivial": 0, "counters": {}, "samples": [], "violations": [], "violation_counts": {}, "inconclusive": [], "notes": []}
+    merged["counters"] = {"%s_%s" % (label, k): v for k, v in merged.get("counters", {}).items() if k in ("entry_point_calls", "rules_driven")}
+    merged["counters"]["%s_cases" % label] = merged.get("evaluations", 0)
+    for c in crashes:
+        # a sanitizer report ends the process: the report itself is the witness
+        tail = c["log_tail"]
+        reported = any(k in tail for k in ("AddressSanitizer", "Invalid read", "Invalid write", "ERROR SUMMARY", "Undefined Behavior", "error: Undefined", "unsafe precondition"))
+        if reported:
+            sig = "unclassified/C09/%s-report" % label
+            merged["violations"].append({"signature": sig, "what": "%s reported an error (exit %s) while running %s" % (label, c["exit"], c["bin"]),
+                                         "witness": {"in_flight": c["in_flight"][:4], "report_tail": tail[-1200:], "cmd": " ".join(c["cmd"])}})
+            merged["violation_counts"][sig] = merged["violation_counts"].get(sig, 0) + 1
+        else:
+            merged["inconclusive"].append("%s run of %s ended with exit %s without a recognisable report: %s" % (label, c["bin"], c["exit"], tail[-300:]))
+    return merged
+
+
 def run_c09(ctx):
     docs = [run_harness(ctx, profile="dev")]
     # release: debug assertions off (unchecked slicing); the kind-nesting and slice families add
     # nothing to the cursor arithmetic and are left out to keep the optimised build affordable
     docs.append(run_harness(ctx, profile="release", families=[f for f in ALL_FAMILIES if f not in ("kinds", "slice")]))
+    builds = ["dev (debug assertions on, hooks on)", "release (unchecked slicing, boundary hooks on)"]
+    sanitizers = []
+    if not ctx.replay:
+        emit = emit_harness(ctx)
+        thorough = ctx.tier == "thorough"
+        # --- valgrind memcheck on a release build WITHOUT the hooks (a stray cursor must reach the slicing)
+        bins = pick_sanitizer_bins(emit, 4 if thorough else 2)
+        env = dict(ctx.env)
+        env["CARGO_TARGET_DIR"] = os.path.join(ctx.root, "target", "nohooks")
+        args = ["build", "--offline", "--release", "--no-default-features"]
+        for b in bins:
+            args += ["--bin", b]
+        p = ctx.cargo(args, HARNESS_DIR, "build harness without hooks (release, %d shards)" % len(bins), timeout=5400, env=env)
+        if p.returncode != 0:
+            raise Inconclusive("the hook-less release build failed:\n" + "\n".join(p.stdout.splitlines()[-20:]))
+        vg = sanitizer_run(ctx, "valgrind", bins, os.path.join(ctx.root, "target", "nohooks", "release"), 0.2 if thorough else 0.04,
+                           wrapper=["valgrind", "--error-exitcode=9", "-q", "--undef-value-errors=no"], jobs=1, timeout=5400)
+        docs.append(vg)
+        builds.append("release without hooks under valgrind memcheck (invalid reads/writes; undefined-value reports off, see DESIGN 6/C09)")
+        sanitizers.append("valgrind-memcheck")
+        if thorough:
+            # --- AddressSanitizer
+            env = dict(ctx.env)
+            env["CARGO_TARGET_DIR"] = os.path.join(ctx.root, "target", "asan")
+            env["RUSTFLAGS"] = "-Zsanitizer=address -Cforce-frame-pointers=yes"
+            args = ["build", "--offline", "--release", "--no-default-features", "--target", "x86_64-unknown-linux-gnu"]
+            for b in bins:
+                args += ["--bin", b]
+            p = ctx.cargo(args, HARNESS_DIR, "build harness with AddressSanitizer (%d shards)" % len(bins), timeout=5400, env=env, toolchain="+nightly")
+            if p.returncode != 0:
+                raise Inconclusive("the AddressSanitizer build failed:\n" + "\n".join(p.stdout.splitlines()[-20:]))
+            renv = dict(ctx.env)
+            renv["ASAN_OPTIONS"] = "detect_leaks=0:abort_on_error=1:halt_on_error=1"
+            docs.append(sanitizer_run(ctx, "asan", bins, os.path.join(ctx.root, "target", "asan", "x86_64-unknown-linux-gnu", "release"), 1.0, env=renv, timeout=5400))
+            builds.append("release without hooks, -Zsanitizer=address")
+            sanitizers.append("AddressSanitizer")
+            # --- Miri (release profile: debug assertions off, so the get_unchecked branch is interpreted)
+            docs.append(run_miri(ctx, emit, bins[:2]))
+            builds.append("Miri, release profile without hooks (a few rules per shard; ~5 s per case)")
+            sanitizers.append("Miri")
     merged = merge_results(docs)
-    merged["builds"] = ["dev (debug assertions on)", "release (unchecked slicing, boundary hooks on)"]
-    merged["rule"] = HARNESS_RULE + "; every case is executed once per build profile (evaluations count both, distinct cases are counted per profile)"
+    merged["builds"] = builds
+    merged["sanitizers"] = sanitizers
+    merged["rule"] = HARNESS_RULE + "; every case is executed once per build (evaluations count all builds, distinct cases are counted per build)"
     return merged
+
+
+def run_miri(ctx, emit, bins):
+    """Interpret a handful of rules per shard under Miri (16 processes in parallel)."""
+    env = dict(ctx.env)
+    env["CARGO_TARGET_DIR"] = os.path.join(ctx.root, "target", "miri")
+    env["MIRIFLAGS"] = "-Zmiri-disable-isolation -Zmiri-ignore-leaks"
+    result = {"evaluations": 0, "distinct_nontrivial": 0, "counters": {}, "samples": [], "violations": [], "violation_counts": {}, "inconclusive": [], "notes": []}
+    procs = []
+    for b in bins:
+        grammars = [s["grammars"] for s in emit["shards"] if s["bin"] == b][0]
+        # build once (cargo miri run builds; the first process per bin does it, the others wait on the lock)
+        for k, g in enumerate(grammars[:4]):
+            for sub in range(2):
+                out = os.path.join(ctx.scratch, "C09-miri-%s-%d-%d.json" % (b, k, sub))
+                if os.path.exists(out):
+                    os.remove(out)
+                cmd = ["cargo", "+nightly", "miri", "run", "--offline", "--release", "--no-default-features", "--bin", b, "--",
+                       "--prop", "C09", "--tier", "quick", "--seed", str(ctx.seed + sub), "--scale", "0.01", "--jobs", "1", "--only", g + "/", "--max-rules", "1", "--rule-offset", str(sub * 3),
+                       "--families", ",".join(ALL_FAMILIES), "--out", out]
+                log = open(os.path.join(ctx.scratch, "C09-miri-%s-%d-%d.log" % (b, k, sub)), "w")
+                procs.append((out, log, cmd, subprocess.Popen(cmd, cwd=os.path.join(ctx.root, HARNESS_DIR), env=env, stdout=log, stderr=subprocess.STDOUT)))
+    for out, log, cmd, p in procs:
+        try:
+            rc = p.wait(timeout=5400)
+        except subprocess.TimeoutExpired:
+            p.kill()
+            result["inconclusive"].append("Miri watchdog fired")
+            continue
+        finally:
+            log.close()
+        with open(log.name) as f:
+            text = f.read()
+        if rc == 0 and os.path.exists(out):
+            with open(out) as f:
+                d = json.load(f)
+            result["evaluations"] += d.get("evaluations", 0)
+            result["distinct_nontrivial"] += d.get("distinct_nontrivial", 0)
+            result["counters"]["miri_cases"] = result["counters"].get("miri_cases", 0) + d.get("evaluations", 0)
+            result["counters"]["miri_entry_point_calls"] = result["counters"].get("miri_entry_point_calls", 0) + d.get("counters", {}).get("entry_point_calls", 0)
+            for v in d.get("violations", []):
+                result["violations"].append(v)
+            for k, v in d.get("violation_counts", {}).items():
+                result["violation_counts"][k] = result["violation_counts"].get(k, 0) + v
+        elif "Undefined Behavior" in text or "error: unsupported operation" in text or "unsafe precondition" in text:
+            if "Undefined Behavior" in text or "unsafe precondition" in text:
+                sig = "unclassified/C09/miri-undefined-behaviour"
+                at = text.find("Undefined Behavior")
+                result["violations"].append({"signature": sig, "what": "Miri reports undefined behaviour", "witness": {"cmd": " ".join(cmd), "report": text[max(0, at - 200):at + 1500]}})
+                result["violation_counts"][sig] = result["violation_counts"].get(sig, 0) + 1
+            else:
+                result["inconclusive"].append("Miri: unsupported operation: " + text[-300:])
+        else:
+            result["inconclusive"].append("Miri run failed (exit %s): %s" % (rc, text[-300:]))
+    return result
 
 
 def run_vgen(ctx, cmd, name, extra=None):
@@ -635,7 +766,7 @@ PROPS = {
         "level_text": "All entry points on &str, &String, Position and Span forms over hostile alphabets (1-4 byte characters, CR/LF, the grammar's literals cut inside multi-byte neighbours), in the dev profile and in the release profile (where slicing is unchecked and the verif-hooks boundary monitor turns a stray cursor into a recorded event): no unwind, every cursor / token span / error location / stack entry inside the input range on a char boundary, span text can be taken, and the recorder process never dies (a dead shard is re-run on the in-flight case to confirm).",
         "level_note": "a clean run is not memory safety: only paths the workload reaches; inputs are exact-capacity heap buffers so that an out-of-range read leaves the allocation",
         "level": "exploration",
-        "required": {"entry_point_calls": 1000000, "hook_cursor_checks": 1000000},
+        "required": {"entry_point_calls": 1000000, "hook_cursor_checks": 1000000, "valgrind_cases": 500},
         "assumptions": TRUST_HARNESS,
     },
     "C11": {
